@@ -84,10 +84,8 @@ theorem mapOk_step {s s' : G} {l : Label} (h : MapOk s) (hs : gstep s l = some s
   | lnLookup k =>
     simp only [gstep] at hs
     split at hs
-    · cases hs
-    · split at hs
-      · cases hs; exact mapOk_upd h rfl (by show _ ≤ _ + 1; omega)
-      · cases hs; exact mapOk_alloc h rfl (by simp [newCtorEntry])
+    · cases hs; exact mapOk_upd h rfl (by show _ ≤ _ + 1; omega)
+    · cases hs; exact mapOk_alloc h rfl (by simp [newCtorEntry])
   | ctorOk e =>
     simp only [gstep] at hs
     split at hs
@@ -111,10 +109,8 @@ theorem mapOk_step {s s' : G} {l : Label} (h : MapOk s) (hs : gstep s l = some s
   | lsLookup k =>
     simp only [gstep] at hs
     split at hs
-    · cases hs
-    · split at hs
-      · cases hs; exact mapOk_bump (mapOk_upd h rfl (by show _ ≤ _ + 1; omega))
-      · cases hs; exact mapOk_bump (mapOk_alloc h rfl (by simp [newStoredEntry]))
+    · cases hs; exact mapOk_bump (mapOk_upd h rfl (by show _ ≤ _ + 1; omega))
+    · cases hs; exact mapOk_bump (mapOk_alloc h rfl (by simp [newStoredEntry]))
   | lsRead e v =>
     simp only [gstep] at hs
     split at hs
@@ -124,9 +120,7 @@ theorem mapOk_step {s s' : G} {l : Label} (h : MapOk s) (hs : gstep s l = some s
     cases ho with
     | none =>
       simp only [gstep] at hs
-      split at hs
-      · cases hs
-      · cases hs; exact mapOk_del1Code h k
+      cases hs; exact mapOk_del1Code h k
     | some hd =>
       simp only [gstep] at hs
       split at hs
@@ -143,22 +137,8 @@ theorem mapOk_step {s s' : G} {l : Label} (h : MapOk s) (hs : gstep s l = some s
     split at hs
     · cases hs; exact mapOk_upd h rfl (Int.le_refl _)
     · cases hs
-  | refs1 k =>
-    simp only [gstep] at hs
-    split at hs
-    · cases hs; exact mapOk_upd h rfl (Int.le_refl _)
-    · cases hs; exact h
-  | refs2 e =>
-    simp only [gstep] at hs
-    split at hs
-    · cases hs; exact mapOk_upd h rfl (Int.le_refl _)
-    · cases hs
-  | rangeBegin => simp only [gstep] at hs; cases hs; exact h
-  | rangeEnd =>
-    simp only [gstep] at hs
-    split at hs
-    · cases hs; exact h
-    · cases hs
+  | refs k => simp only [gstep] at hs; cases hs; exact h
+  | range => simp only [gstep] at hs; cases hs; exact h
 
 theorem mapOk_run : ∀ (ls : List Label) (s s' : G), MapOk s → runLabels s ls = some s' → MapOk s'
   | [], s, s', h, hr => by simp only [runLabels] at hr; cases hr; exact h
